@@ -38,7 +38,7 @@ SiteOf(x, i) ==
                 \o SetToSeq({OpRec("v", D * CopiesWith(x, v), Vars[v].ins, v) : v \in vs})]
 MkCase(call, x) ==
     [p |-> P, sites |-> [i \in 1..3 |-> SiteOf(x, i)], vars |-> Vars, cfgs |-> Cfgs,
-     struct |-> <<[cfg |-> 1, n |-> Len(call)]>>, majors |-> Majors, minors |-> Minors, call |-> call, phases |-> <<>>]
+     struct |-> <<[cfg |-> 1, n |-> Len(call)]>>, majors |-> Majors, minors |-> Minors, call |-> call, phases |-> <<>>, nalleles |-> 1, phaseVars |-> 3000]
 MinorsOfMajor(j) == {m \in DOMAIN Minors : Minors[m].major = j}
 Refinements(call) == {x \in [DOMAIN call -> DOMAIN Minors] : \A k \in DOMAIN call : Minors[x[k]].major = call[k]}
 
